@@ -528,66 +528,138 @@ def varint_reader_rules(F, R):
     R.floor("V-reader", "byte patterns", n, 5)
 
 
+def _digit_canon(t):
+    """Canonical form (q, m, c) of a byte term of n: ((n div q) mod m) + c, m None when there is no reduction.
+    None when the term has another shape."""
+    if t[0] == "lin":
+        return (1, None, 0) if (t[1], t[2]) == (1, 0) else None
+    if t[0] == "cast":
+        x = _digit_canon(t[2])
+        if x is None or x[2]:
+            return None
+        q, m, c = x
+        k = 1 << t[1]
+        if m is None or m % k == 0:
+            return (q, k, 0)
+        return x if k % m == 0 else None
+    if t[0] != "bin" or not isinstance(t[3], int):
+        return None
+    x = _digit_canon(t[2])
+    if x is None:
+        return None
+    q, m, c = x
+    op, k = t[1], t[3]
+    if op == "Shr":
+        op, k = "Div", 1 << k
+    if op == "BitAnd" and k > 0 and (k & (k + 1)) == 0:
+        op, k = "Rem", k + 1
+    if op == "Div" and m is None and c == 0 and k > 0:
+        return (q * k, None, 0)
+    if op == "Rem" and c == 0 and k > 0:
+        if m is None or m % k == 0:
+            return (q, k, 0)
+        return x if k % m == 0 else None
+    if op in ("BitOr", "Add") and c == 0 and m is not None and k >= m and (op == "Add" or ((k & (k - 1)) == 0 and k % m == 0)):
+        return (q, m, k)
+    return None
+
+
 def varint_writer_rules(F, R):
-    """write_var_int: transfer function of the loop body: writes (n % 128) with bit 7 set iff n / 128 > 0,
-    continues with n / 128 iff n / 128 > 0, one byte per iteration."""
+    """write_var_int as a whole function: the value n is a witnessed unknown; every comparison the function makes on a
+    monotone term of n (n, n / 128, n >> 7, ...) is turned into the exact threshold on n and both sides of every threshold are
+    evaluated, so the function is reconstructed piece by piece; on every piece below 2^28 it must write exactly
+    var_int_len(n) bytes, byte j being ((n div 128^j) mod 128) with bit 7 set iff another byte follows -- as a term, for
+    every n of the piece, whatever the spelling (loop, unrolled match, fast path, %//, &/>>), and as a value at the witness."""
+    from peval import Lin, Wx, wx_term
     fid = "common::utils::write_var_int"
-    b, loop = _find_loop(F, fid)
-    f = F.fns[fid]
-    pid = f["thir"]["params"][1]["pat"]["var"]["id"]
-    N = Sym("N")
-    for more in (False, True):
-        written = []
+    f = F.fns.get(fid)
+    if f is None:
+        raise AnchorLost(fid)
+    T = S.VARINT_THRESHOLDS
+    todo = {0, 1}
+    for t in T:
+        todo |= {t - 1, t, t + 1}
+    done, consts = {}, set()
+    while todo:
+        w = todo.pop()
+        if w in done or w < 0 or w >= T[3]:
+            continue
+        log, written = [], []
+
+        def put(v):
+            if isinstance(v, Tup):
+                for x in v.items:
+                    put(x)
+            elif isinstance(v, tuple) and v and v[0] == "bytes":
+                written.extend(v[1])
+            else:
+                written.append(v)
 
         def hook(d, res, args, node, env):
             r = res or d
+            name = node["fn"].get("name")
             if r == "common::utils::write_u8":
-                written.append(args[1])
+                put(args[1])
                 return ok(UNIT)
-            if node["fn"].get("name") in ("write_all", "write"):
-                written.append(("raw", args[1]))
+            if r == "common::utils::write_bytes":
+                raise Undecided("write_bytes inside write_var_int")
+            if name == "write_all" and r not in F.fns:
+                put(args[1])
                 return ok(UNIT)
+            if name in ("write", "write_vectored", "push", "extend_from_slice", "put_u8", "put_slice") and r not in F.fns and args and isinstance(args[0], Sym):
+                raise Undecided("write_var_int writes through %s" % name)
             return None
-
-        def cond(what, node):
-            if what[0] == "cmp":
-                op, a, c = what[1], what[2], what[3]
-                q = ("sym", ("bin", "Div", ("sym", "N"), 128))
-                for x, y in ((a, c), (c, a)):
-                    if x == q and isinstance(y, int):
-                        val = 1 if more else 0      # representative: quotient is positive or zero
-                        if x is c:
-                            op2 = {"Lt": "Gt", "Gt": "Lt", "Le": "Ge", "Ge": "Le"}.get(op, op)
-                        else:
-                            op2 = op
-                        return {"Eq": val == y, "Ne": val != y, "Gt": val > y, "Lt": val < y, "Ge": val >= y, "Le": val <= y}[op2]
-            if what[0] == "try-ok":
-                return True
-            return None
-        env = {pid: N}
-        pe = PE(F, call_hook=hook, cond_hook=cond, fuel=10)
         try:
-            pe.ev(loop["body"], env)
-            out = ("continue",)
-        except _Cont:
-            out = ("continue",)
-        except _Brk:
-            out = ("break",)
-        except _Ret as r:
-            out = ("return", r.v)
+            r = PE(F, call_hook=hook, fuel=400).call_fn(fid, [Sym("writer"), Lin(1, 0, w, log)])
         except Undecided as e:
-            out = ("undecided", str(e))
-        low = ("sym", ("cast", ("bin", "Rem", ("sym", "N"), 128), "u8"))
-        want_byte = ("sym", ("bin", "BitOr", low, 128)) if more else low
-        alt = ("sym", ("bin", "BitOr", 128, low))
-        got = [vkey(w) for w in written]
-        good_b = got == [want_byte] or (more and got == [alt])
-        nxt = vkey(env.get(pid))
-        key = "more" if more else "last"
-        if more:
-            good = good_b and out == ("continue",) and nxt == ("sym", ("bin", "Div", ("sym", "N"), 128))
-        else:
-            good = good_b and (out == ("break",) or (out[0] == "return" and result_kind(out[1])[0] == "ok"))
-        R.check(good, "V-writer", key,
-                "write_var_int iteration with quotient %s 0: writes %s, then %s with n = %s (expected %s, %s)" % (
-                    ">" if more else "==", got, out[:1], nxt, "(n % 128) | 0x80" if more else "n % 128", "continue with n / 128" if more else "stop"), where=fid)
+            raise AnchorLost("%s cannot be evaluated at n=%d: %s" % (fid, w, e))
+        done[w] = (result_kind(r)[0], written)
+        for _op, c in log:
+            if isinstance(c, int) and c not in consts:
+                consts.add(c)
+                todo |= {c - 1, c, c + 1}
+    cuts = sorted(c for c in consts if 0 < c < T[3])
+    bad = []
+    for w in sorted(done):
+        kind, written = done[w]
+        lo = max([0] + [c for c in cuts if c <= w])
+        hi = min([T[3]] + [c for c in cuts if c > w]) - 1          # w's piece: every comparison has one outcome on [lo, hi]
+        n = next(k + 1 for k, t in enumerate(T) if w < t)
+        if kind != "ok":
+            bad.append((w, "returns %s" % kind))
+            continue
+        if len(written) != n:
+            bad.append((w, "writes %d byte(s), a %d-byte variable byte integer is due" % (len(written), n)))
+            continue
+        if next(k + 1 for k, t in enumerate(T) if hi < t) != n:
+            bad.append((w, "one piece [%d, %d] spans two widths" % (lo, hi)))
+            continue
+        for j, b in enumerate(written):
+            cont = 128 if j < n - 1 else 0
+            want_val = ((w >> (7 * j)) & 127) | cont
+            if isinstance(b, int):
+                # a constant byte is right only when the whole piece has this digit
+                same = (lo >> (7 * j)) == (hi >> (7 * j))
+                if b != want_val or not same:
+                    bad.append((w, "byte %d is the constant %d" % (j, b)))
+                continue
+            if not isinstance(b, (Lin, Wx)):
+                bad.append((w, "byte %d is %r" % (j, b)))
+                continue
+            if b.val() % 256 != want_val:
+                bad.append((w, "byte %d is %d, expected %d" % (j, b.val() % 256, want_val)))
+                continue
+            cf = _digit_canon(wx_term(b))
+            if cf is None:
+                bad.append((w, "byte %d is the term %r, not a base-128 digit of n" % (j, wx_term(b))))
+                continue
+            q, m, c = cf
+            top = hi // q                      # largest value of (n div q) on the piece
+            good = q == 128 ** j and c == cont and (m == 128 or ((m is None or m % 128 == 0) and top < 128))
+            if not good:
+                bad.append((w, "byte %d is ((n div %d) mod %s) + %d on [%d, %d], expected ((n div %d) mod 128) + %d" % (j, q, m, c, lo, hi, 128 ** j, cont)))
+    R.check(not bad, "V-writer", "bytes",
+            "write_var_int does not write the variable byte integer of n: %s" % "; ".join("n=%d: %s" % x for x in bad[:3]),
+            where=fid, detail={"breakpoints": cuts, "witnesses": len(done)})
+    R.check(len(done) >= 3 * len(T), "V-writer", "anchor-lost/witnesses", "only %d witnesses evaluated" % len(done), where=fid)
+    R.sample({"rule": "V-writer", "breakpoints": cuts, "witnesses": len(done)})
